@@ -149,14 +149,16 @@ impl Engine for SyncEngine {
             }
         };
         let mut ops = Vec::new();
-        let n_ticks = if blackout { c.range(108, 150) } else { n_ticks };
+        let n_ticks = if blackout { if c.chance(1, 3) { c.range(150, 270) } else { c.range(108, 150) } } else { n_ticks };
         let ack_phase = if blackout { c.range(2, 6) } else { u64::MAX };
+        // how much of the snapshot traffic still arrives during the blackout (per cent)
+        let blackout_delivery = *c.pick(&[50u64, 50, 90, 100]);
         for tick_no in 0..n_ticks {
             if tick_no >= ack_phase {
                 // blackout: snapshots keep flowing (with loss), no acknowledgement is sent
                 let muts = *s.pick(&[0u8, 1, 1, 2]);
                 ops.push(SyncOp::ServerTick { inc: 1, muts, salt: s.next_u64() as u32 });
-                if s.chance(1, 2) {
+                if s.chance(blackout_delivery, 100) {
                     ops.push(SyncOp::DeliverSnap { pick: 0 });
                 } else {
                     ops.push(SyncOp::DropSnap { pick: 0 });
